@@ -1,5 +1,5 @@
 """C05 -- loops visit exactly the selected elements, with truthful loop metadata."""
-import z3
+import z3, re
 from mirsym.exec import Executor, State, Unsupported
 from mirsym.values import *
 from mirsym.models import ALL_MODELS
@@ -172,6 +172,7 @@ def run(chk):
     ob_forloop_new(chk, P)
     ob_tablerow_new(chk, P)
     ob_for_render(chk, P, 3 if chk.tier == 'quick' else 4)
+    ob_tablerow_render(chk, P, 3 if chk.tier == 'quick' else 4)
 
 
 # ============================================================================ For::render_to
@@ -337,3 +338,115 @@ def run_for_case(ob, ex, fn, n, has_limit, has_offset, rev, has_else, outer):
             report('For::render_to/wrong-elements', f'body saw elements {seen} (forloop.length={L}, else rendered={bool(else_calls)})')
         else:
             ob.sample({'len': n, 'limit': has_limit, 'offset': has_offset, 'reversed': rev, 'seen': seen, 'outcomes': [(o[2], o[3]) for o in body_out]})
+
+
+# ============================================================================ TableRow::render_to
+def py_tablerow(n, cols, body='x'):
+    out = ''
+    c = cols if cols is not None else n
+    for i in range(n):
+        col = i % c; row = i // c
+        if col == 0: out += f'<tr class="row{row + 1}">'
+        out += f'<td class="col{col + 1}">' + body.replace('$I', str(i + 1)) + '</td>'
+        if col == c - 1 or i == n - 1: out += '</tr>'
+    return out
+
+
+def ob_tablerow_render(chk, P, maxn):
+    with chk.obligation('TableRow::render_to/markup', 'tablerow renders the body once per selected element inside balanced <tr class="rowR"><td class="colC"> markup with truthful R, C and a truthful tablerow record; '
+                        'cols may be any integer: a zero column count is an error and no column count panics (division by zero, overflow)',
+                        {'array length': f'0..{maxn}', 'cols': 'absent or any i64 (symbolic)', 'body': 'abstract child (Ok/Err)'}) as ob:
+        fn = P.find_method('TableRow', 'render_to', 'Renderable', 'lib')
+        ex = Executor(P, models_with(registers_models())); ex.seed = chk.seed; ex.max_steps = 30000
+        from checks.C15 import expr_stub
+        for n in range(maxn + 1):
+            for has_cols in (False, True):
+                st = State(); sink = SinkEnv('W', may_fail=False); penv = ParentEnv(())
+                body = ChildEnv('cell', sink, 0, may_interrupt=False)
+                cols = z3.BitVec('cols', 64)
+                arr = Adt('Value', 'Array', [VecV([value_scalar(scalar_int(k + 1)) for k in range(n)])])
+                self_ = Adt('TableRow', None, [StrV('i', 'KString'), Adt('RangeExpression', 'Array', [expr_stub(arr)]), mk_template(st, [body]),
+                                               Some(expr_stub(value_scalar(scalar_int(Int(cols, 'i64'))))) if has_cols else NONE, NONE, NONE], ['var_name', 'range', 'item_template', 'cols', 'limit', 'offset'])
+                for s2, kind, val in ex.run(fn, [st.ref(self_), st.ref(sink.abs(), True), st.ref(penv.abs())], st):
+                    ob.paths += 1; ob.reached()
+                    m = ob.decide(ex, s2.conds, z3.BoolVal(True))
+                    cv = m.eval(cols, model_completion=True).as_signed_long() if has_cols else None
+                    def report(role, what):
+                        cr = cv if cv is None or abs(cv) < 10 ** 6 else (10 ** 6 if cv > 0 else -10 ** 6)
+                        tpl = '{% tablerow i in a' + (f' cols:{cr}' if cr is not None else '') + ' %}{{i}}{% endtablerow %}'
+                        exp = py_tablerow(n, cr, '$I') if (cr is None or cr > 0) and not (cr is None and n == 0) else None
+                        if cr is None and n == 0: exp = ''
+                        sc = {'kind': 'template', 'template': tpl, 'globals': {'a': list(range(1, n + 1))}}
+                        ob.violation(role, f'{what} (len={n}, cols={cv})', {'len': n, 'cols': cv}, sc,
+                                     lambda r, e=exp: (r.get('outcome') == 'panic' or r.get('outcome') == 'ok') if e is None else (r.get('outcome') != 'ok' or r.get('output') != e))
+                    if kind == 'panic':
+                        report('TableRow/panic/' + ('div-by-zero' if 'zero' in str(val) else 'other'), f'tablerow panics: {val}'); continue
+                    outs = s2.env.get('child_outcomes', ())
+                    body_err = any(o[2] == 'err' for o in outs)
+                    log = sink.text(s2)
+                    cells = [c[1] for c in calls(s2, 'child')]
+                    if has_cols and cv is not None and cv == 0 and n > 0:
+                        if val.variant != 'Err' or cells: report('TableRow/zero-cols-accepted', f'cols=0 accepted: wrote {log}')
+                        continue
+                    if has_cols and cv is not None and cv <= 0:
+                        continue      # negative column counts: only panic-freedom is claimed (the property quantifies over cols >= 1)
+                    if body_err:
+                        if val.variant != 'Err': report('TableRow/body-error-swallowed', 'body failed but tablerow returned Ok')
+                        continue
+                    # ---- markup: structure is fixed by the path, the printed numbers may be symbolic in `cols`
+                    C = cols if has_cols else z3.BitVecVal(n, 64)
+                    cons = []; i = 0; ok_shape = True; expect_open = True
+                    for e in log:
+                        parts = e[1] if e[0] == 'fmt' else None
+                        if parts is None: ok_shape = False; break
+                        head = parts[0] if parts and isinstance(parts[0], str) else ''
+                        num = [p for p in parts if isinstance(p, tuple) and p[0] == 'int']
+                        lits = ''.join(p for p in parts if isinstance(p, str))
+                        if head.startswith('<tr class="row'):
+                            exp = z3.UDiv(z3.BitVecVal(i, 64), C) + 1
+                            cons.append(z3.URem(z3.BitVecVal(i, 64), C) == 0)
+                        elif head.startswith('<td class="col'):
+                            exp = z3.URem(z3.BitVecVal(i, 64), C) + 1
+                        elif lits == '</td>':
+                            i += 1; continue
+                        elif lits == '</tr>':
+                            cons.append(z3.Or(z3.URem(z3.BitVecVal(i - 1, 64), C) == C - 1, z3.BoolVal(i == n))); continue
+                        else:
+                            ok_shape = False; break
+                        if num: cons.append(num[0][1].e == exp)
+                        else:
+                            mnum = re.search(r'(\d+)', lits)
+                            cons.append(z3.BitVecVal(int(mnum.group(1)), 64) == exp if mnum else z3.BoolVal(False))
+                    opens = sum(1 for e in log if ''.join(p for p in e[1] if isinstance(p, str)).startswith('<tr')); closes = sum(1 for e in log if ''.join(p for p in e[1] if isinstance(p, str)) == '</tr>')
+                    tds = sum(1 for e in log if ''.join(p for p in e[1] if isinstance(p, str)).startswith('<td'))
+                    if not ok_shape or val.variant != 'Ok' or i != n or tds != n or opens != closes or len(cells) != n:
+                        report('TableRow/markup', f'tablerow wrote {log} for {n} elements'); continue
+                    mm = ob.decide(ex, s2.conds + [C != 0], z3.Not(z3.And(*cons))) if cons else None
+                    if mm is not None:
+                        cv = mm.eval(cols, model_completion=True).as_signed_long() if has_cols else None
+                        report('TableRow/markup', f'tablerow markup/numbering wrong: wrote {log}'); continue
+                    # ---- tablerow record handed to the body
+                    rcons = []; bad_rec = None
+                    for k, sc_ in enumerate(cells):
+                        d = dict(sc_[1][2]) if sc_[1][0] == 'StackFrame' and isinstance(sc_[1][2], tuple) else {}
+                        tr = dict(d.get('tablerow', (None, ()))[1]) if isinstance(d.get('tablerow'), tuple) else {}
+                        colz = z3.URem(z3.BitVecVal(k, 64), C)
+                        truth = dict(length=n, index0=k, index=k + 1, rindex0=n - k - 1, rindex=n - k, first=(k == 0), last=(k == n - 1),
+                                     col0=colz, col=colz + 1, col_first=(colz == 0), col_last=z3.Or(colz == C - 1, z3.BoolVal(k == n - 1)))
+                        if set(d) != {'tablerow', 'i'} or d['i'] != ('Integer', k + 1): bad_rec = f'cell {k}: scope {d}'; break
+                        for fld, exp in truth.items():
+                            got = tr.get(fld)
+                            if isinstance(got, SymField): rcons.append(got.v.e == exp)
+                            elif isinstance(exp, (int, bool)):
+                                if got != exp: bad_rec = f'cell {k}: tablerow.{fld} = {got}, expected {exp}'
+                            else:
+                                rcons.append((z3.BitVecVal(got, 64) if not isinstance(got, bool) else z3.BoolVal(got)) == exp)
+                        if bad_rec: break
+                    if bad_rec:
+                        report('TableRow/record', bad_rec); continue
+                    mm = ob.decide(ex, s2.conds + [C != 0], z3.Not(z3.And(*rcons))) if rcons else None
+                    if mm is not None:
+                        cv = mm.eval(cols, model_completion=True).as_signed_long() if has_cols else None
+                        report('TableRow/record', 'tablerow record untruthful'); continue
+                ob.sample({'len': n, 'cols': 'symbolic' if has_cols else 'absent'})
+        ob.absorb(ex)
